@@ -891,11 +891,29 @@ def rule_state_writers(facts, rid="C01.R7"):
                         if pr[0] == "field" and pr[4] and pr[4].endswith("lzma::DecoderState"):
                             writers.setdefault(pr[2], set()).add((fn, blk.idx, b))
     r.sites = len(fields)
+    # private helpers: a function all of whose call sites are in permitted writers of the field is part of them
+    callers = {}
+    for b in facts.bodies:
+        if b.promoted is not None:
+            continue
+        for blk in b.calls():
+            cal = blk.term.callee
+            if cal is not None and cal.target().local:
+                cb = facts.by_def.get(cal.target().defk)
+                if cb is not None:
+                    callers.setdefault(short(cb.name), set()).add(short(b.name))
+
+    def permitted(fn, allowed, depth=0):
+        if any(fn.endswith(x) for x in (allowed or init)) or (allowed is None and fn in famnames):
+            return True
+        cs = callers.get(fn)
+        return bool(cs) and depth < 3 and all(permitted(x, allowed, depth + 1) for x in cs if x != fn)
+
     for f in fields:
         allowed = special.get(f)
         bad = []
         for (fn, bb, b) in sorted(writers.get(f, ()), key=lambda x: (x[0], x[1])):
-            okk = any(fn.endswith(x) for x in (allowed or init)) or (allowed is None and fn in famnames)
+            okk = permitted(fn, allowed)
             if not okk:
                 bad.append((fn, bb, b))
         if bad:
